@@ -140,7 +140,7 @@ def one_case(rng, idx, dist, focus=False):
     mrng = random.Random(seed)
     pool, info = arch.gen_model(mrng, ctx_id, small=mrng.random() < 0.3)
     tags = arch.choose_tags(mrng, pool)
-    fmt = mrng.choice(arch.FORMATS); via = mrng.choice(['string', 'file'])
+    fmt = mrng.choice(arch.FORMATS); via = arch.choose_via(mrng, fmt)
     where = mrng.choice(['fresh', 'fresh_lo', 'same', 'same_modified', 'clash'])
     malformed = mrng.random() < 0.15
     if focus:
@@ -175,9 +175,11 @@ def one_case(rng, idx, dist, focus=False):
     docs = {}
     for f in arch.FORMATS:
         a2 = arch.make_archive(tags, pool)
-        docs[f] = arch.dump_with(f, a2, via if f == fmt else 'string')
+        docs[f] = arch.dump_with(f, a2, via if f == fmt else 'string', multi=(mrng, pool))
         if f == fmt:
             frozen_lit = '(Ok %s)' % arch.cfrozen(a2)
+    handle = docs[fmt] if isinstance(docs[fmt], dict) else None
+    docs = {f: arch.doc_content(d) for f, d in docs.items()}
     jtree = json.loads(docs['json'])
     jdoc_lit = '(Some %s)' % arch.jdoc(jtree)
     xdoc_lit = '(Some %s)' % arch.xdoc(ET.XML(docs['xml']))
@@ -224,7 +226,7 @@ def one_case(rng, idx, dist, focus=False):
             clash.append(core.ureal(1.0, u, df, label=lab, independent=ind))
         keep = keep + (clash,)
     tgt = arch.cctx(*arch.live_ctx())
-    doc_in = jin_text if fmt == 'json' else docs[fmt]
+    doc_in = jin_text if (fmt == 'json' and (malformed or handle is None)) else (handle if handle is not None else docs[fmt])
     def load():
         return arch.load_with(fmt, doc_in, via)
     def after_lit(ar2):
@@ -253,7 +255,7 @@ def one_case(rng, idx, dist, focus=False):
 STAGES = {1: '_freeze: the five collections differ', 2: 'JSON document written differs from the model encoder',
           3: 'XML document written differs from the model encoder', 4: 'JSON reader (json_to_archive) differs from the model decoder',
           5: 'XML reader (_v150_to_archive) differs from the model decoder',
-          6: '_thaw: registries or restored numbers after load differ'}
+          6: 'load (file protocol + _thaw): exception, registries or restored numbers after the load differ'}
 
 def stage_mismatches(values, descs):
     out = []
@@ -332,7 +334,10 @@ def correspondence(rng, tier):
                     'nested real and complex intermediates, labels incl. None and "") -> in half of the histories the writer first dumps 1-2 EARLIER '
                     'archives of overlapping numbers and changes its state after each (correlations declared / re-declared, ensemble extended, label '
                     'given by result(), new results): every archive must reflect the state at ITS write time -> random tagged subset -> dump with '
-                    '{pickle, JSON, XML} x {string, file} -> {fresh context with a larger / a smaller context id than the writing session, '
+                    '{pickle, JSON, XML} x {string, in-memory file object, real file opened in the documented mode, real file with the archive behind a '
+                    'preamble (non-zero offset), pickle: one of several archives dumped one after another into one binary file and loaded back in '
+                    'order (the others checked too), XML: file name / text mode with encoding=unicode} -> {fresh context with a larger / a smaller '
+                    'context id than the writing session, '
                     'same session, same session with a correlation changed, context id reused for other numbers} -> load; 15% of JSON '
                     'documents damaged; each stage (freeze, two encoders, two decoders, thaw incl. registries) compared bit-exactly with the '
                     'FNum model; then a continued calculation on the restored numbers (arithmetic, result() on top of restored intermediates '
@@ -392,7 +397,7 @@ def diff_one(seed, ctx_id, fmt, via, where, focus=False):
            'history': history}
     try:
         ar = arch.make_archive(tags, pool, legacy=(fmt == 'legacy'))
-        doc = arch.dump_with(fmt, ar, via)
+        doc = arch.dump_with(fmt, ar, via, multi=(mrng, pool))
     except Exception as ex:
         rec['raised_on_dump'] = repr(ex); return rec, 0
     originals = {t: pool[n] for t, n in tags.items()}
@@ -451,7 +456,7 @@ ALLFORMATS = ['pickle', 'json', 'xml', 'legacy']
 def differential(rng, n, dist=None, wheres=WHERES, formats=ALLFORMATS, focus=False):
     counts = {}; failing = []; nobs = 0
     for i in range(n):
-        seed = rng.getrandbits(32); fmt = rng.choice(formats); via = rng.choice(['string', 'file'])
+        seed = rng.getrandbits(32); fmt = rng.choice(formats); via = arch.choose_via(rng, fmt)
         where = rng.choice(wheres)
         r, k = diff_one(seed, 300 + i, fmt, via, where, focus)
         nobs += k
@@ -468,7 +473,7 @@ def search(rng, tier, broken):
     n = 250 if tier == 'quick' else 3000
     tried = 0
     for i in range(n):
-        seed = rng.getrandbits(32); fmt = rng.choice(['pickle', 'json', 'xml', 'legacy']); via = rng.choice(['string', 'file'])
+        seed = rng.getrandbits(32); fmt = rng.choice(['pickle', 'json', 'xml', 'legacy']); via = arch.choose_via(rng, fmt)
         where = rng.choice(WHERES)
         r, _ = diff_one(seed, 300 + i, fmt, via, where, focus=(i % 2 == 1))
         tried += 1
@@ -602,3 +607,28 @@ def replay(payload):
         print('replayed failing input on the implementation:', 'STILL FAILS %s' % json.dumps(r, default=str)[:1500] if r else 'passes now')
         return 1 if r else 0
     return 0
+
+
+def kf_C07_legacy_pickle_offset():
+    """persistence.load of a legacy (pre-1.5) pickle archive that is not the first thing in the file: after a preamble, and a
+    second legacy archive after a first one (the loader re-read the file from offset 0 with the old classes)"""
+    import io
+    from GTC import persistence as pr
+    a = open(os.path.join(REPO, 'test', 'ref_file_v_1_3_3.gar'), 'rb').read()
+    b = open(os.path.join(REPO, 'test', 'ref_file_v_1_3_5.gar'), 'rb').read()
+    bad = []
+    try:
+        new_context(901)
+        f = io.BytesIO(b'HEADER LINE\n' + a); f.readline(); ar = pr.load(f)
+        if len(list(ar.keys())) == 0: bad.append('preamble: empty archive')
+    except Exception as ex:
+        bad.append('preamble + legacy archive: %r' % (ex,))
+    try:
+        new_context(902)
+        f = io.BytesIO(a + b); a1 = pr.load(f)
+        new_context(903)
+        a2 = pr.load(f)
+        if sorted(a1.keys()) == sorted(a2.keys()) or f.read() != b'': bad.append('second legacy archive: the first one was read again')
+    except Exception as ex:
+        bad.append('two legacy archives in one file: %r' % (ex,))
+    return (bool(bad), '; '.join(bad) or 'both legacy archives load from their own offsets')
